@@ -18,10 +18,13 @@ Modelling decisions
 * A shard heap is the list of its packets: `decode` pops *all* packets when it pops any, and
   the ids in one shard set have distinct positions `seqid % shardSize`, so heap order is
   unobservable.  The map `shardSet` is an association list (printed sorted by key).
-* Panics are values (`panic := true`, state unchanged) for the two argument errors that the
-  callers exclude: `encode` of a buffer shorter than `payloadOffset + 2` or longer than
-  `mtuLimit`, `decode` of fewer than `fecHeaderSize` bytes (DESIGN O3).  `decode` of more than
-  `mtuLimit` bytes (pool buffer too small) is outside the model; `kcpInput` never does it.
+* Panics are values (`panic := true`; what happens afterwards is not modelled) for the argument
+  errors that the callers exclude: `encode` of a buffer shorter than `payloadOffset + 2` or longer
+  than `mtuLimit`; `decode` of fewer than `fecHeaderSize` bytes (DESIGN O3, state unchanged);
+  `decode` of more than `mtuLimit` bytes when it reaches the copy into a pool buffer
+  (`Get()[:len(in)]`; not when the packet is dropped earlier: id ≥ paws, tuning branch,
+  duplicate); the re-slice `shards[k][:maxlen]` beyond a pool buffer's capacity (`recoverPanics`,
+  unreachable while all stored packets are ≤ `mtuLimit` — Props/C05Fec).
 * `reedsolomon.New` cannot fail for `1 ≤ d, 1 ≤ p, d + p ≤ 256`; the error returns after it are
   not modelled.  (For `d + p > 256` klauspost silently switches to a different code; the
   decoder constructor refuses that range and so does the model's encoder constructor.)
@@ -211,9 +214,20 @@ def recover (dec : Decoder) (pkts : List Bytes) : List Bytes :=
     | some ds => pickMissing (shards.take dec.d) ds
     | none => []
 
-/-- `discardShards` -/
+/-- the re-slice `shards[k][:maxlen]` of the recovery block exceeds the capacity of a pool buffer
+    (`mtuLimit − fecHeaderSize` for `pkt.data()`): only when some data shard is absent (case 2) and
+    the longest body does not fit — impossible while every stored packet is ≤ `mtuLimit` bytes -/
+def recoverPanics (dec : Decoder) (pkts : List Bytes) : Bool :=
+  decide ((pkts.filter fun q => flag q == typeData).length ≠ dec.d) &&
+  decide (maxBody pkts + fecHeaderSize > mtuLimit)
+
+/-- `discardShards`: a shard set survives iff its age `_itimediff(newest·n, id·n)` lies in
+    `[0, maxShardSets·n]` (the lower bound is the repair of finding D14: a set half the id space
+    away, or left "ahead" by a large jump of `newestShardId`, has a negative age) -/
 def discard (n : Nat) (newest : BitVec 32) (sets : List ShardSet) : List ShardSet :=
-  sets.filter fun s => !(decide (itimediff (newest * u32 n) (s.id * u32 n) > (maxShardSets * n : Nat)))
+  sets.filter fun s =>
+    !(decide (itimediff (newest * u32 n) (s.id * u32 n) > (maxShardSets * n : Nat)) ||
+      decide (itimediff (newest * u32 n) (s.id * u32 n) < 0))
 
 def lookup (id : BitVec 32) : List ShardSet → Option ShardSet
   | [] => none
@@ -266,7 +280,11 @@ def Decoder.decode (C : CodecNew) (dec : Decoder) (inp : Bytes) : DecOut :=
         let sets := store { id := shardId, pkts := if full then [] else pkts } dec1.sets
         let newest :=
           if itimediff (shardId * u32 dec1.n) (base * u32 dec1.n) > 0 then shardId else base
-        { st := { dec1 with sets := discard dec1.n newest sets, newest := newest }, recovered := recovered }
+        -- slice-bounds panics of this path: `defaultBufferPool.Get()[:len(in)]` for an input longer
+        -- than a pool buffer, and the re-slice in the recovery block (what happens after a panic is
+        -- not modelled: `st`/`recovered` are then meaningless and the harness abandons the decoder)
+        { st := { dec1 with sets := discard dec1.n newest sets, newest := newest }, recovered := recovered,
+          panic := decide (inp.length > mtuLimit) || (full && recoverPanics dec1 pkts) }
 
 /-- the check of `kcpInput` on a recovered shard: `r[2:sz]` when `2 ≤ sz ≤ len(r)` -/
 def trim (r : Bytes) : Option Bytes :=
